@@ -16,6 +16,7 @@ import (
 type response struct {
 	Status     int
 	SetCookies [][]byte // field values of every Set-Cookie line, in order
+	Location   string   // field value of the (last) Location line
 	HeadLines  int
 	Malformed  bool // no parsable status line
 }
@@ -64,6 +65,9 @@ func parseResponse(raw []byte) response {
 		val := bytes.Trim(line[c+1:], " \t")
 		if strings.EqualFold(string(name), "Set-Cookie") {
 			rs.SetCookies = append(rs.SetCookies, append([]byte(nil), val...))
+		}
+		if strings.EqualFold(string(name), "Location") {
+			rs.Location = string(val)
 		}
 	}
 	return rs
@@ -269,6 +273,20 @@ func (j *jar) evict() bool {
 
 // cookieHeader is RFC 6265 §5.4: the Cookie field value for a request to host/uriPath ("" = none).
 func (j *jar) cookieHeader(host, uriPath string) []byte {
+	var out []byte
+	for i, c := range j.selected(host, uriPath) {
+		if i > 0 {
+			out = append(out, ';', ' ')
+		}
+		out = append(out, c.Name...)
+		out = append(out, '=')
+		out = append(out, c.Value...)
+	}
+	return out
+}
+
+// selected lists the cookies of §5.4 for a request to host/uriPath, in the order they are sent.
+func (j *jar) selected(host, uriPath string) []cookie {
 	j.evict()
 	var sel []cookie
 	for _, c := range j.cookies {
@@ -290,16 +308,7 @@ func (j *jar) cookieHeader(host, uriPath string) []byte {
 		}
 		return sel[a].Created < sel[b].Created
 	})
-	var out []byte
-	for i, c := range sel {
-		if i > 0 {
-			out = append(out, ';', ' ')
-		}
-		out = append(out, c.Name...)
-		out = append(out, '=')
-		out = append(out, c.Value...)
-	}
-	return out
+	return sel
 }
 
 func (j *jar) get(name string) ([]byte, bool) {
